@@ -1277,3 +1277,8 @@ def _sys_elapsed(eng, st, args, dty, callee, m):
     a = deref(eng, st, args[0])
     ge = time_le(a, now)
     return VEnum(RESULT, z3.If(ge, bv(0, 8), bv(1, 8)), {0: (time_sub(now, a),), 1: (VOpaque("SystemTimeError"),)})
+
+
+@summary(r"^hex::encode::<.*>$", "hex::encode: an abstract string with fresh identity (only used in messages)")
+def _hex_encode(eng, st, args, dty, callee, m):
+    return VStr(eng.fresh_bv("hexstr", 64))
